@@ -29,7 +29,9 @@ ASSUMPTIONS = ["thresholds are >= 3x the worst value observed over the thorough 
 # >= 3x the worst value observed over the whole thorough lattice on the repaired tree:
 # default rates 0.0098 rad / 0.0041 rad/s, slow rates (100 Hz IMU, RK4 step error dominates) 0.0294 rad / 0.0127 rad/s,
 # rate-limited corrections (accel every 4th IMU message, mag every 2nd) 0.0104 rad / 0.0059 rad/s
-TOL = {"default": (0.03, 0.0125), "slow": (0.09, 0.04), "limited": (0.035, 0.018), "offgrid": (0.08, 0.03)}  # offgrid: worst observed 0.027 rad / 0.005 rad/s
+TOL = {"default": (0.03, 0.0125), "slow": (0.09, 0.04), "limited": (0.035, 0.018), "offgrid": (0.08, 0.03),  # offgrid: worst observed 0.027 rad / 0.005 rad/s
+       # rate RELATIONS (worst observed on the unchanged tree 0.055 rad / 0.0093 rad/s, started at zero)
+       "imu_nonmultiple": (0.08, 0.03), "imu_mixed": (0.08, 0.03), "fine_sim_mixed": (0.08, 0.03), "fine_sim": (0.08, 0.03)}
 ATT_TOL, BIAS_TOL = TOL["default"]
 
 _L = {}
@@ -54,7 +56,13 @@ RATES = {"default": {}, "slow": {"sim/dt_sim": 1.0 / 400, "sim/dt_imu": 1.0 / 10
          # corrections rate-limited below the sensor rates (prediction on every IMU message, corrections on every 4th / 2nd)
          "limited": {"mrp/dt_min_accel": 1.0 / 50, "mrp/dt_min_mag": 1.0 / 25},
          # magnetometer samples stamped BETWEEN IMU samples (period 3/400 s against 1/200 s)
-         "offgrid": {"sim/dt_mag": 3.0 / 400}}
+         "offgrid": {"sim/dt_mag": 3.0 / 400},
+         # relations between the rate settings rather than their values: an IMU period that is no whole number of simulation steps (the
+         # samples come every 7.5 ms), one that makes the sample intervals alternate (5 / 7.5 ms), a fine simulation step with intervals
+         # that alternate within a few per cent (5 / 5.25 ms), and a simulation step equal to the publishing slack (4 / 5 ms, magnetometer
+         # between IMU samples)
+         "imu_nonmultiple": {"sim/dt_imu": 6.5e-3}, "imu_mixed": {"sim/dt_imu": 6e-3}, "fine_sim_mixed": {"sim/dt_sim": 0.25e-3, "sim/dt_imu": 6e-3},
+         "fine_sim": {"sim/dt_sim": 1e-3}}
 
 
 def run_loop(cfg, chooser=None):
@@ -121,6 +129,13 @@ def judge(res, cfg, d, err, case, sched_choices=None):
             Rk = ref.R_from_quat(qs[k]) if Rk is None else Rk
             worst_a = max(worst_a, float(np.max(np.abs(np.asarray(d["imu"]["accel"][k]).reshape(-1) - Rk.T @ np.array([0, 0, -9.8])))) / 9.8)
             ni_ += 1
+    # the simulator publishes the true attitude and the IMU sample in one step with one time stamp: a logger row holds the latest of both,
+    # so their stamps agree in every row; an IMU stamp that is not the simulation time of the sample belongs to another attitude
+    off = [(float(ti[k]), float(ta[k])) for k in range(first, len(t)) if np.isfinite(ti[k]) and np.isfinite(ta[k]) and abs(ti[k] - ta[k]) >= 1e-9]
+    if off:
+        res.fail(site="launch_sim", clause="imu_sample_stamped_with_its_simulation_time", cls=tag, detail=dict(info, rows_with_differing_stamps=len(off), example_imu_time=off[len(off) // 2][0],
+                 example_attitude_time=off[len(off) // 2][1], worst_difference=max(abs(a - b) for a, b in off)), sub=case["sub"], case=case)
+        return
     if nm_ < 10 or ni_ < 10:
         raise core.HarnessError("C12: fewer than 10 logger rows with time-aligned sensor and attitude messages (%d mag, %d imu)" % (nm_, ni_))
     res.count("aligned_sensor_rows", nm_ + ni_)
@@ -188,6 +203,9 @@ def lattice(tier):
     out = [dict(x0=atts[a] + biases[b], initialize=inits[i], decl=mags[mg][0], incl=mags[mg][1], rates=rates[r], tf=tf) for a, b, i, mg, r in full]
     for x0, init in (([0.3, -0.3, 0.3, 0.07, 0.02, -0.07], True), ([-0.3, 0.3, 0.3, -0.05, 0.05, 0.05], False), ([0.0, 0.0, 0.8, 0.0, 0.0, 0.0], True), ([0.3, 0.3, -0.3, 0.0, 0.0, 0.0], False)):
         out.append(dict(x0=x0, initialize=init, decl=0.2, incl=1.0, rates="offgrid", tf=tf))
+    for rates_ in ("imu_nonmultiple", "imu_mixed", "fine_sim_mixed", "fine_sim"):
+        for x0, init in (([0.3, -0.3, 0.3, 0.07, 0.02, -0.07], True), ([-0.3, 0.3, 0.3, -0.05, 0.05, 0.05], False)):
+            out.append(dict(x0=x0, initialize=init, decl=0.2, incl=1.0, rates=rates_, tf=tf))
     # the initial state left to the launcher's default, and given as integer-valued data
     for form, x0, init in (("default", [0.0] * 6, True), ("int_list", [0.0] * 6, False), ("int_array", [0.0] * 6, True)):
         out.append(dict(x0=x0, initialize=init, decl=0.2, incl=1.0, rates="default", tf=tf, x0_form=form))
